@@ -353,13 +353,29 @@ class H2(Case):
              for k in range(n) for i in range(len(idx[k]))]), key="time_axes"))
         # kernel calls: operators paired with the times of the same position, everything else forwarded
         exp_ops = [ops[k] for k in order]
-        fwd = all(np.array_equal(c["operators"][j], exp_ops[j]) for c in stub.calls for j in range(n)) \
-            and all(c["system"] is system and c["process_tensor"] is pt and np.array_equal(c["initial_state"], rho0)
-                    for c in stub.calls)
-        fwd = all_of([fwd] + [_eq_entry(c["start_time"], start) for c in stub.calls])
+        # every documented argument must reach the kernel (a missing keyword is a violated obligation, not a crash)
+        MISSING = object()
+
+        def got(c, name):
+            return c.get(name, MISSING)
+        fwd = all(got(c, "operators") is not MISSING and len(c["operators"]) == n
+                  and all(np.array_equal(c["operators"][j], exp_ops[j]) for j in range(n)) for c in stub.calls) \
+            and all(got(c, "system") is system and got(c, "process_tensor") is pt for c in stub.calls)
         if self.api == "nt":
-            fwd = all_of([fwd, all(list(c["ops_order"]) == ops_order for c in stub.calls)])
-        obs.append(Ob.holds("kernel gets the operators in the order of their times; system, process tensor, initial state, start_time forwarded", fwd, key="kernel_args"))
+            fwd = fwd and all(got(c, "ops_order") is not MISSING and list(c["ops_order"]) == ops_order for c in stub.calls)
+        obs.append(Ob.holds("kernel gets the operators in the order of their times (and ops_order), the system and the process tensor",
+                            fwd, key="kernel_args"))
+        obs.append(Ob.holds("kernel gets the caller's initial state",
+                            all(got(c, "initial_state") is not MISSING and c["initial_state"] is not None
+                                and np.array_equal(c["initial_state"], rho0) for c in stub.calls), key="kernel_initial_state"))
+        obs.append(Ob.holds("kernel gets the caller's start_time",
+                            all_of([got(c, "start_time") is not MISSING and got(c, "start_time") is not None for c in stub.calls]
+                                   + [_eq_entry(c["start_time"], start) for c in stub.calls
+                                      if got(c, "start_time") is not MISSING and c["start_time"] is not None]), key="kernel_start_time"))
+        eff_dts = [c["process_tensor"].dt if c.get("dt") is None and got(c, "process_tensor") is not MISSING else c.get("dt") for c in stub.calls]
+        obs.append(Ob.holds("kernel runs with the time step of the returned axes (dt passed on, or the process tensor's when none was given)",
+                            all_of([e is not None for e in eff_dts] + [_eq_entry(e, dt_eff) for e in eff_dts if e is not None]),
+                            key="kernel_dt"))
         # entries, row by row (row = one choice of the earlier operators' times)
         nidx = [idx[k] for k in order]                 # kernel order
         rows_ok, rows_class = [], []
@@ -448,15 +464,16 @@ class H3Real(Case):
     stubs = ("System.get_propagators -> symbolic half-step propagators (records dt)",)
     env = {"noconj": True, "extra": dict(ENV_SD["extra"], **shadow_builtins("oqupy.dynamics", ("float",)))}
 
-    def __init__(self, ptdt, N=2):
-        self.ptdt, self.N = ptdt, N
-        self.id = "H3/dt_forwarded/real_ptdt_%s" % ptdt
-        self.bounds = {"N": N, "process tensor dt": ptdt, "caller dt": "symbolic in [0.01, 4]"}
+    def __init__(self, ptdt, N=2, start=0.0, pass_dt=True):
+        self.ptdt, self.N, self.start, self.pass_dt = ptdt, N, start, pass_dt
+        self.id = "H3/dt_forwarded/real_ptdt_%s" % ptdt if start == 0.0 and pass_dt else \
+            "H3/args_forwarded/real_ptdt_%s_t%s_%s" % (ptdt, start, "dt" if pass_dt else "nodt")
+        self.bounds = {"N": N, "process tensor dt": ptdt, "caller dt": "symbolic in [0.01, 4]" if pass_dt else None, "start_time": start}
 
     def run(self, inp):
         from checks.c03 import build_pt
         N, d = self.N, 2
-        dt_user = inp.real("dt", lo=Fraction(1, 100), hi=4)
+        dt_user = inp.real("dt", lo=Fraction(1, 100), hi=4) if self.pass_dt else None
         pt_dt = None if self.ptdt == "none" else 0.1
         pt, Meff, caps = build_pt(inp, "e", d, N, 1, 3, False, dt=pt_dt)
         P1 = [lib.gen_prop(inp, "p%d" % k, d) for k in range(N)]
@@ -467,14 +484,17 @@ class H3Real(Case):
             with warnings.catch_warnings(), _quiet():
                 warnings.simplefilter("ignore")
                 ret_times, corr = sd.compute_correlations(system, pt, A, B, 0, slice(None), initial_state=rho0,
-                                                          start_time=0.0, dt=dt_user, progress_type="silent")
+                                                          start_time=self.start, dt=dt_user, progress_type="silent")
         except ValueError:
             # refusing to combine a process tensor with a different time step is no mislabelled result;
             # refusing the documented use "tensor has no dt, caller specifies it" is
             return [Ob.holds("call with the caller's dt is carried out", pt_dt is not None, key="dt")]
-        conds = [len(system.calls) >= 1] + [_eq_entry(c[0], dt_user) for c in system.calls]
-        return [Ob.holds("time step used by the dynamics == dt passed by the caller", all_of(conds), key="dt"),
-                Ob.holds("time axis uses the caller's dt", all_of([_eq_entry(ret_times[1][j], dt_user * j) for j in range(N + 1)]), key="axis")]
+        dt_eff = dt_user if self.pass_dt else pt_dt
+        conds = [len(system.calls) >= 1] + [_eq_entry(c[0], dt_eff) for c in system.calls]
+        return [Ob.holds("time step used by the dynamics == dt of the returned axes (the caller's when passed)", all_of(conds), key="dt"),
+                Ob.holds("start time used by the dynamics == start_time passed by the caller",
+                         all_of([len(system.calls) >= 1] + [_eq_entry(c[1], self.start) for c in system.calls]), key="start_time"),
+                Ob.holds("time axis == start_time + dt*step", all_of([_eq_entry(ret_times[1][j], self.start + dt_eff * j) for j in range(N + 1)]), key="axis")]
 
 
 # ------------------------------------------------------------------------------------------
@@ -608,7 +628,8 @@ def cases(tier):
     for part in ("desc_last_filtered", "desc_last_unfiltered"):
         cs += [H2("ordered", ("list2", "list3"), 2, part), H2("anti", ("list2", "list2"), 2, part), H2("nt", ("int", "int", "list2"), 2, part)]
     # ---- H3 dt
-    cs += [H3Stub("none"), H3Stub("set"), H3Real("none"), H3Real("set")]
+    cs += [H3Stub("none"), H3Stub("set"), H3Real("none"), H3Real("set"), H3Real("set", start=0.3), H3Real("none", start=-0.7),
+           H3Real("set", start=0.3, pass_dt=False)]
     # ---- H4 values
     cs += [H4("ordered", ("left", "left"), ("all", "all"), 2), H4("anti", ("right", "left"), ("all", "all"), 2),
            H4("nt", ("right", "left"), ("rev", "all"), 2, rank=3), H4("nt", ("left", "right", "left"), ("all", "all", "all"), 2, bond=1),
